@@ -348,6 +348,7 @@ def PendQ : Msg → Bool
   | .wasm _ _ (.hub .updateGlobalIndex) _ => true
   | .wasm _ _ (.hub .bondRewards) _ => true
   | .wasm _ _ (.hub (.redelegateProxy ..)) _ => true
+  | .wasm _ _ (.hub (.updateConfig ..)) _ => true
   | .wasm _ _ (.disp .dispatch) _ => true
   | .wasm _ _ (.reg (.remove _)) _ => true
   | .wasm _ _ (.reg (.redelegations _)) _ => true
@@ -379,6 +380,8 @@ inductive PendShape : Msg → Prop where
   | br (a b : Addr) (d : List (Denom × Nat)) : PendShape (.wasm a b (.hub .bondRewards) d)
   | proxy (a b src : Addr) (plan : List (Addr × Nat)) (d : List (Denom × Nat)) :
       PendShape (.wasm a b (.hub (.redelegateProxy src plan)) d)
+  | uconfig (a b : Addr) (x1 x2 x3 x4 x5 x6 x7 : Option Addr) (d : List (Denom × Nat)) :
+      PendShape (.wasm a b (.hub (.updateConfig x1 x2 x3 x4 x5 x6 x7)) d)
   | dispatch (a b : Addr) (d : List (Denom × Nat)) : PendShape (.wasm a b (.disp .dispatch) d)
   | remove (a b v : Addr) (d : List (Denom × Nat)) : PendShape (.wasm a b (.reg (.remove v)) d)
   | redelegations (a b v : Addr) (d : List (Denom × Nat)) : PendShape (.wasm a b (.reg (.redelegations v)) d)
@@ -394,6 +397,7 @@ theorem pendq_cases (m : Msg) (h : PendQ m = true) (hs : Still m = false) : Pend
         | exact .ugi _ _ _
         | exact .br _ _ _
         | exact .proxy _ _ _ _ _
+        | exact .uconfig _ _ _ _ _ _ _ _ _ _
         | (simp only [PendQ] at h; rw [hs] at h; cases h)
     | disp dm =>
       cases dm <;> first
@@ -490,6 +494,41 @@ theorem ugi_keeps (h h' : HubSt) (e : HubEnv) (sender : Addr) (funds : List (Den
       intro x hx'
       simp only [List.mem_append, List.mem_map, List.mem_cons, List.mem_nil_iff, or_false] at hx'
       rcases hx' with ⟨dd', _, rfl⟩ | rfl | rfl <;> rfl
+
+/-- the owner's UpdateConfig moves nothing that prices (the token addresses are write-once) and emits
+    at most the withdraw-address message -/
+theorem uconfig_keeps (h h' : HubSt) (e : HubEnv) (sender : Addr) (funds : List (Denom × Nat))
+    (x1 x2 x3 x4 x5 x6 x7 : Option Addr) (ms : List Msg) (hb : h.bsei = some bseiA) (hs : h.stsei = some stseiA)
+    (hx : hubExec h e sender funds (.updateConfig x1 x2 x3 x4 x5 x6 x7) = .ok (h', ms)) :
+    h'.bBond = h.bBond ∧ h'.sBond = h.sBond ∧ h'.reqB = h.reqB ∧ h'.reqS = h.reqS ∧
+    h'.bRate = h.bRate ∧ h'.sRate = h.sRate ∧ h'.bsei = h.bsei ∧ h'.stsei = h.stsei ∧ AllPendQ ms := by
+  simp only [hubExec] at hx
+  split at hx
+  · cases hx
+  · simp only [HubSt.updateConfig, bind, Except.bind, throw, throwThe, MonadExceptOf.throw, pure, Except.pure] at hx
+    split at hx
+    · cases hx
+    · split at hx
+      · cases hx
+      · rename_i hnb
+        split at hx
+        · cases hx
+        · rename_i hns
+          injection hx with hx; injection hx with e1 e2; subst e1; subst e2
+          have b3 : x3 = none := by
+            cases x3 with
+            | none => rfl
+            | some v => exact absurd ⟨rfl, by rw [hb]; rfl⟩ hnb
+          have b4 : x4 = none := by
+            cases x4 with
+            | none => rfl
+            | some v => exact absurd ⟨rfl, by rw [hs]; rfl⟩ hns
+          subst b3; subst b4
+          refine ⟨rfl, rfl, rfl, rfl, rfl, rfl, rfl, rfl, ?_⟩
+          intro x hx'
+          cases x1 with
+          | none => cases hx'
+          | some dd => simp at hx'; subst hx'; rfl
 
 /-- one Redelegate: the hub's stake moves between two validators; the total, and whether there is
     any, are kept -/
@@ -653,6 +692,21 @@ theorem PInvB.step (s0 : Sys) (st0 : HubSt) (c0 : ChainOK s0)
         simp only [List.mem_map] at hx''
         obtain ⟨pp, _, rfl⟩ := hx''
         rfl
+      | bsei s1 sender funds tm heq _ _ _ _ _ _ _ => injection heq with _ _ e3 _; cases e3
+      | stsei blk sender funds tm heq _ _ _ _ _ _ => injection heq with _ _ e3 _; cases e3
+      | reward s1 sender funds rm heq _ _ _ _ _ _ _ _ _ => injection heq with _ _ e3 _; cases e3
+      | disp env sender funds dm heq _ _ _ _ _ _ _ _ => injection heq with _ _ e3 _; cases e3
+      | reg s1 sender funds rm heq _ _ _ _ _ _ _ _ _ => injection heq with _ _ e3 _; cases e3
+    | uconfig a b x1 x2 x3 x4 x5 x6 x7 d =>
+      have ch := handle_wasm_chain s s' _ _ _ _ subs hx
+      cases handle_touch s s' _ subs hx with
+      | none h hm' hs hb => exact Or.inl (stub h ch.1 ch.2 hb)
+      | hub s1 sender funds hm' heq h1' _ hc hx' bb t r dd g =>
+        injection heq with e1 e2 e3 e4
+        injection e3 with e3
+        subst e1; subst e2; subst e3; subst e4
+        obtain ⟨k1, k2, k3, k4, k5, k6, k7, k8, k9⟩ := uconfig_keeps _ _ _ _ _ _ _ _ _ _ _ _ _ inv.btok inv.stok hx'
+        exact Or.inl (keep ⟨k1, k2, k3, k4, k5, k6, k7, k8, by rw [bb], by rw [t], ch.1, ch.2⟩ k9)
       | bsei s1 sender funds tm heq _ _ _ _ _ _ _ => injection heq with _ _ e3 _; cases e3
       | stsei blk sender funds tm heq _ _ _ _ _ _ => injection heq with _ _ e3 _; cases e3
       | reward s1 sender funds rm heq _ _ _ _ _ _ _ _ _ => injection heq with _ _ e3 _; cases e3
